@@ -103,9 +103,16 @@ def tla_cases():
 
 
 def run_cli(exe, code, extra):
-    p = subprocess.run([exe, "-e", code] + extra, stdout=subprocess.PIPE, stderr=subprocess.PIPE, timeout=60,
-                       cwd=core.CACHE)
-    return (p.returncode, p.stdout.decode("utf-8", "replace"), p.stderr.decode("utf-8", "replace"))
+    """one fresh process; a run that does not answer within the limit is retried alone with a longer limit (a loaded
+    machine stalls processes for tens of seconds); None = no answer at all (skipped and counted, never judged)"""
+    for limit in (60, 180, 400):
+        try:
+            p = subprocess.run([exe, "-e", code] + extra, stdout=subprocess.PIPE, stderr=subprocess.PIPE, timeout=limit,
+                               cwd=core.CACHE)
+            return (p.returncode, p.stdout.decode("utf-8", "replace"), p.stderr.decode("utf-8", "replace"))
+        except subprocess.TimeoutExpired:
+            continue
+    return None
 
 TLS_GENS = ("GenTls", "GenStack")
 TLS_FILES = {"ok.jsonnet": "{a: 1, assert self.a == 1}", "bad_assert.jsonnet": "{a: 1, assert self.a == 2 : 'nope'}",
@@ -270,7 +277,11 @@ def check(run, terrs):
     for (i, k), r in zip(jobs, res):
         by.setdefault(i, []).append(r)
     for i, (code, extra) in enumerate(cli):
-        outs = by[i]
+        outs = [o for o in by[i] if o is not None]
+        if len(outs) < len(by[i]):
+            run.count("cli:no-answer-within-limit(skipped)")
+        if len(outs) < 2:
+            continue
         run.note_case("cli:" + code + " ".join(extra), True)
         run.count("cli:" + ("value" if outs[0][0] == 0 else "error"))
         if any(o != outs[0] for o in outs[1:]):
